@@ -316,6 +316,7 @@ def matcher_rule(ctx, R, M, mod):
                 v |= int(ch)
                 m_ |= 1
         return v, m_
+    cls_models, seq_tests = {}, {}
     for cname in M.tab_mn:
         fields = M.fields(cname)
         models, word0, tests = [], 0, []
@@ -351,6 +352,9 @@ def matcher_rule(ctx, R, M, mod):
                 tests.append(('extended opcode set', ((other[0] ^ bs.values[0]) & fm) << off))
         cls = Obj(cname)
         cls.mask_chk = models
+        cls.__dict__['_methods'] = {'check': chk}
+        cls_models[cname] = cls
+        seq_tests[cname] = (word0, [(fname_, flip_) for fname_, flip_ in tests])
 
         def run(op):
             try:
@@ -372,6 +376,52 @@ def matcher_rule(ctx, R, M, mod):
             else:
                 R.violation(inst, 'matcher:%s:%s' % (cname, fname), 'the matcher gives %s for %#010x, which differs from the word of %s in the fixed field %s: a word the architecture does not '
                             'assign to %s is claimed by it' % (r, word0 ^ flip, cname, fname, cname), where(mod, chk), witness='0x7C2004AC decodes as SYNC')
+
+    # the dispatcher behind ppc_mn(word): its answer for a word does not depend on the words decoded before (a result remembered under a key that leaves out
+    # the fixed fields would hand the class of a valid word to a word with a reserved field set)
+    cfo = mod.method('ppc_mnemo_metaclass', 'class_from_op')
+    meta_attrs = {}
+    for st in mod.cls('ppc_mnemo_metaclass').body:
+        if isinstance(st, ast.Assign) and len(st.targets) == 1 and isinstance(st.targets[0], ast.Name):
+            meta_attrs[st.targets[0].id] = st.value
+
+    def dispatcher():
+        me = Obj('ppc_mn')
+        for k_, v_ in meta_attrs.items():
+            try:
+                setattr(me, k_, Evaluator({}).ev(v_))
+            except NotConst:
+                pass
+        return me
+
+    def dispatch(me, op):
+        scope = {'tab_mn': [cls_models[c_] for c_ in M.tab_mn]}
+        try:
+            r_ = Evaluator(scope).call_user(cfo, [me, op])
+            return r_.__dict__['_name'] if isinstance(r_, Obj) else repr(r_)
+        except PyRaise as e:
+            return 'raises %s' % e.exc_name
+        except NotConst as e:
+            raise AnalysisError('ppc_mnemo_metaclass.class_from_op is outside the evaluable subset: %s' % e)
+    n_seq = 0
+    for cname in M.tab_mn:
+        word0, tests = seq_tests[cname]
+        for fname, flip in tests[:3]:
+            w2 = word0 ^ flip
+            fresh = dispatch(dispatcher(), w2)
+            me = dispatcher()
+            first = dispatch(me, word0)
+            after = dispatch(me, w2)
+            again = dispatch(me, word0)
+            n_seq += 1
+            inst = 'dispatch:%s:%s' % (cname, fname)
+            if first != cname:
+                R.violation(inst, 'dispatch:%s:canonical' % cname, 'class_from_op(%#010x) gives %s; the word belongs to %s' % (word0, first, cname), where(mod, cfo))
+            elif after != fresh or again != first:
+                R.violation(inst, 'dispatch:history:%s' % fname, 'class_from_op(%#010x) gives %s in a fresh process but %s after %#010x (%s) was decoded: the dispatcher remembers an answer under '
+                            'a key that leaves out the field %s' % (w2, fresh, after, word0, cname, fname), where(mod, cfo), witness='0x7D240034 then 0x7D24F834')
+            else:
+                R.ok(inst, nontrivial=(n_seq % 5 == 0), sample='%s: %#010x after %#010x is answered as in a fresh process (%s)' % (cname, w2, word0, fresh))
 
 
 def name_table_rule(ctx, R, mod):
